@@ -81,13 +81,13 @@ PROPS["C15"] = {
 PROPS["C02"] = {
     "level": "exploration",
     "budget_s": {"quick": 80, "thorough": 2700},
-    "modes": [{"name": "", "runs": {"quick": 6000, "thorough": 250000}, "chunk": 300},
-              {"name": "positive", "runs": {"quick": 2000, "thorough": 80000}, "chunk": 300}],
+    "modes": [{"name": "", "runs": {"quick": 3800, "thorough": 200000}, "chunk": 200},
+              {"name": "positive", "runs": {"quick": 1200, "thorough": 60000}, "chunk": 200}],
     "rule": ("one run = one generated case (recursion allowed: self/mutual recursive permissions, expansion cycles, wide nodes; mode 'positive' without negation) with global max_read_depth g in 1..8, request max-depth r in -3..10, "
              "max_read_width w in {1,2,3,5,100}; 3 (quick) / 8 (thorough) tape-chosen schedules. Oracle 1: allowed under (r,g,w) => allowed by the unbounded reference R1 (non-stratified cases skipped and counted). "
              "Oracle 2: the same schedule tape against global depth eff(r,g) with request depth 0 gives the same decision and the same storage-call trace. "
              "non-trivial = a depth or width cut actually happened in the run (engine log probes); distinct = hash of (config, tuples, query, g, r, w)."),
-    "probes": ["probe_depth_cut", "probe_depth_cut_with_negation", "probe_width_cut", "probe_cut_turned_allowed_into_denied", "probe_request_depth_nonpositive", "probe_request_depth_above_global", "probe_request_depth_lowers", "pairs_equal", "allowed_under_limit"],
+    "probes": ["probe_depth_cut", "probe_depth_cut_with_negation", "probe_width_cut", "probe_cut_turned_allowed_into_denied", "probe_request_depth_nonpositive", "probe_request_depth_above_global", "probe_request_depth_lowers", "probe_batch_entry_point", "pairs_equal", "allowed_under_limit"],
     "real": REAL_E, "stub": STUB_E,
     "fault_kinds": {},
     "assumptions": ["unbounded semantics = least fixed point of the stratified reference R1", "eff(r,g) as stated in the property"],
